@@ -22,7 +22,7 @@ structure Instr where
 deriving DecidableEq, Repr, Inhabited
 
 inductive AsmErr where
-  | unknownOpcode | unmodelled | arity | operand | width
+  | unknownOpcode | unmodelled | arity | operand | width | tooLong
 deriving DecidableEq, Repr, Inhabited
 
 namespace Encode
@@ -74,6 +74,21 @@ def asm (a : Arch) (i : Instr) : Except AsmErr Bits :=
   match asmRaw a i with
   | .error e => .error e
   | .ok w => if w.length = a.maxWord then .ok w else .error .width
+
+/-- number of words the code memory of the execution mode holds (`Arch.Assembler`'s `maxLines`) -/
+def codeCapacity (a : Arch) : Nat :=
+  match a.mode with
+  | .ha => 2 ^ a.o
+  | .vn => 2 ^ a.l
+  | .hy => if a.o > a.l then 2 ^ a.o else 2 ^ a.l
+
+/-- `Arch.Assembler` on a whole source text: comment lines (`#…`) and blank lines (`none`) produce
+    no word and take no address; every instruction line produces exactly one word, in order; the
+    first failing line fails the whole program; a program longer than the code memory is refused -/
+def asmProgram (a : Arch) (lines : List (Option Instr)) : Except AsmErr (List Bits) :=
+  match (lines.filterMap id).mapM (asm a) with
+  | .error e => .error e
+  | .ok ws => if ws.length ≤ codeCapacity a then .ok ws else .error .tooLong
 
 def decOperand (f : FieldKind) (v : Nat) : Operand :=
   match f with
